@@ -1138,6 +1138,155 @@ def os_cases(ctx, driver, n, n_big):
 
 
 # --------------------------------------------------------------------------------------
+# round 8: the numpy exceptions inside the renderer models of Model/OverlapSave.lean (driver ops runos / runtsos):
+# IndexError for a track outside the input (`input_samples[:, track_index]`), ValueError of `np.stack([])` for an HOA
+# item without tracks, ValueError of `np.dot` for a decode matrix whose width is not the item's number of tracks.
+# The real Renderer is run on sessions with such faults and must raise the same KIND of exception at the same call
+# (same blocks returned before it) as the model - or, for a mis-shaped matrix that is never reached, not raise at all.
+
+
+def _ncols(variant):
+    return len(HOA_VARIANTS[variant]["orders"])
+
+
+def _hoa_block(sr, start, dur, variant):
+    return dict(rt=frs(F(start) / sr), du=frs(F(dur) / sr), jump=0, il=None, os=None, od=None, variant=variant)
+
+
+def gen_np_fault(rng, ts=False):
+    """A generated session (accepted timelines) with one or two index/shape faults. Returns the scenario; the fault
+    names are added to sc['features'] as 'np:<fault>'."""
+    sc = gen_scenario(rng, small=True)
+    if ts:
+        sc = add_specs(rng, sc)
+    feat = set(sc["features"])
+    nin, sr, T = sc["nin"], sc["sr"], sc["T"]
+    D = (sc["B"] or 512) + (template(sc["layout"], sc["B"], sc["N"])[1].shape[0] - 1) // 2
+    faults = ["hoa-shape-first", "hoa-shape-later", "hoa-shape-later", "hoa-shape-unreached", "hoa-shape-boundary"]
+    if not ts:
+        faults += ["bad-track", "bad-track", "bad-track", "hoa-empty", "two-faults", "two-faults"]
+    fault = rng.choice(faults)
+
+    def hoa_item(blocks, k):
+        it = dict(kind="H", blocks=blocks, tracks=[rng.randrange(nin) for _ in range(k)])
+        if ts:
+            it["specs"] = [gen_spec(rng, sc, feat) if rng.random() < 0.5 else ["D", t] for t in it["tracks"]]
+        return it
+
+    def shaped_item(kind):
+        good = rng.choice(["o0", "o1"])
+        bad = "o1" if good == "o0" else "o0"
+        k = _ncols(good)
+        if kind == "first":
+            if rng.random() < 0.5:
+                blocks = [dict(rt=None, du=None, jump=0, il=None, os=None, od=None, variant=bad)]
+            else:
+                blocks = [_hoa_block(sr, rng.choice([0, 1, T + 5]), 3, bad)]
+            return hoa_item(blocks, k)
+        # a correctly shaped first block ending at frame e, then a mis-shaped one
+        if kind == "later":
+            e = F(rng.randint(0, max(0, T + D - 1)) * 2 + rng.choice([0, 0, -1]), 2) if T + D > 0 else F(0)
+            e = max(F(0), min(e, F(T + D) - F(1, 2)))
+        elif kind == "unreached":
+            e = F(T + D + rng.choice([1, 7, 100]))
+        else:  # boundary: reached iff ceil(e) < T + D
+            e = F(T + D) + rng.choice([F(-1), F(-1, 2), F(0), F(1, 3), F(1)])
+            e = max(F(0), e)
+        gap = rng.choice([F(0), F(0), F(3, 2)])
+        blocks = [_hoa_block(sr, 0, e, good), _hoa_block(sr, e + gap, rng.choice([1, 4]), bad)]
+        return hoa_item(blocks, k)
+
+    def bad_track(it):
+        if it["kind"] == "H":
+            it["tracks"][rng.randrange(len(it["tracks"]))] = nin + rng.choice([0, 1, 5])
+        else:
+            it["track"] = nin + rng.choice([0, 1, 5])
+
+    pos = rng.randint(0, len(sc["items"]))
+    if fault == "bad-track":
+        bad_track(rng.choice(sc["items"]))
+    elif fault == "hoa-empty":
+        sc["items"].insert(pos, dict(kind="H", tracks=[], blocks=[
+            dict(rt=None, du=None, jump=0, il=None, os=None, od=None, variant="o0")]))
+    elif fault == "hoa-shape-first":
+        sc["items"].insert(pos, shaped_item("first"))
+    elif fault == "hoa-shape-later":
+        sc["items"].insert(pos, shaped_item("later"))
+    elif fault == "hoa-shape-unreached":
+        sc["items"].insert(pos, shaped_item("unreached"))
+    elif fault == "hoa-shape-boundary":
+        sc["items"].insert(pos, shaped_item("boundary"))
+    else:
+        # a later mis-shaped matrix in one item and a track outside the input in an item AFTER it: which exception
+        # comes first depends on the blocking
+        sc["items"].append(shaped_item("later"))
+        tail = dict(kind=rng.choice(["D", "H"]), blocks=[dict(rt=None, du=None, jump=0, il=None, os=None, od=None)])
+        if tail["kind"] == "D":
+            tail["track"] = nin + 1
+            tail["blocks"][0].update(label=template(sc["layout"], sc["B"], sc["N"])[2].channel_names[0], az=0.0, gain=1.0)
+        else:
+            tail["tracks"] = [nin]
+            tail["blocks"][0]["variant"] = "o0"
+        sc["items"].append(tail)
+    feat.add("np:" + fault)
+    sc["features"] = sorted(feat)
+    return sc
+
+
+def _real_exc_kind(rerr):
+    if rerr is None:
+        return None
+    if rerr.startswith("IndexError"):
+        return "index"
+    if rerr.startswith("ValueError") and "at least one array" in rerr:
+        return "stack"
+    if rerr.startswith("ValueError") and "not aligned" in rerr:
+        return "dot"
+    return "other:" + rerr
+
+
+def _model_exc_kind(merr):
+    return {None: None, "np-trackIndex": "index", "track-index": "index", "np-emptyStack": "stack",
+            "track-emptyStack": "stack", "np-dotShape": "dot"}.get(merr, "other:%s" % merr)
+
+
+def np_error_cases(ctx, driver, n, n_ts):
+    rng = os_rng(ctx, "np-errors")
+    lines, metas = [], []
+    for i in range(n + n_ts):
+        sc = gen_np_fault(rng, ts=i >= n)
+        T = sc["T"]
+        plist = [(T,), tuple([1] * T), random_partition(rng, T), with_zeros(rng, random_partition(rng, T))]
+        if T == 0:
+            plist = [(), (0,), (0, 0)]
+        for parts in list(dict.fromkeys(plist)):
+            sess = Session(sc)
+            real = sess.run(parts)
+            lines.append(encode(sc, sess, parts, "runos"))
+            metas.append((sc, parts, real, sess.nout))
+    outs = []
+    for i in range(0, len(lines), 500):
+        outs += driver.run(lines[i:i + 500])
+    for (sc, parts, (real, rerr), nout), line in zip(metas, outs):
+        model, merr = parse_trace(line, nout)
+        fault = [f for f in sc["features"] if f.startswith("np:")][0]
+        rk, mk = _real_exc_kind(rerr), _model_exc_kind(merr)
+        ctx.case((json.dumps(sc, sort_keys=True), parts, "np"), True,
+                 sample={"fault": fault, "parts": list(parts), "real": rerr, "model": merr,
+                         "blocks_before": [int(o.shape[0]) for o in real]})
+        ctx.count("%s%s:%s" % (fault, "+track-specs" if uses_ts(sc) else "", rk or "no-exception"))
+        if rk != mk:
+            ctx.disagree("Renderer vs model with numpy exceptions (exception kind)", slim(sc, parts), merr, rerr)
+            continue
+        d = compare_blocks(real, model, tol_of(sc))
+        if d:
+            ctx.disagree("Renderer vs model with numpy exceptions (blocks before the exception)", slim(sc, parts), d,
+                         "error=%s" % rerr)
+        else:
+            ctx.validated()
+
+
+# --------------------------------------------------------------------------------------
 
 
 class C02(Spec):
@@ -1155,6 +1304,10 @@ class C02(Spec):
         "ds_stream", "hoa_stream", "render_refines_spec", "C02_block_independent", "C02_length_and_origin",
         "render_refines_spec_partial", "C02_block_independent_partial", "run_prefix",
         "renderAllOS_eq", "render_refines_spec_os", "C02_block_independent_os", "C02_length_and_origin_os",
+        # round 8: the numpy exceptions inside the model (Proofs/C02Checked.lean, Proofs/C02OverlapSave.lean)
+        "bpcLoopC_rel", "bpcProcessC_rel", "procChansC_rel", "renderAllOS_rel", "render_refines_spec_os_ok",
+        "renderAllOS_ok_tracks", "renderAllOS_raises_of_bad_track", "renderAllOS_ok_first_matrix",
+        "C02_block_independent_os_of_ok",
         # the functions the driver runs (renderTrace*) are what the theorems are about (renderAll*)
         "renderAll_eq_trace", "renderTrace_eq", "renderAllOS_eq_trace", "renderTraceOS_eq")) + tuple(
         "Earverif.RendererTS." + t for t in (
@@ -1162,6 +1315,7 @@ class C02(Spec):
         "render_refines_spec_ts", "render_eq_outTS", "C02_block_independent_ts", "C02_length_and_origin_ts",
         "item_stream_eq_processor_run",
         "renderAllTSOS_eq", "render_eq_outTS_os", "C02_block_independent_ts_os", "C02_length_and_origin_ts_os",
+        "hoaChansTSC_rel", "renderAllTSOS_rel", "render_eq_outTS_os_ok",
         "renderAllTS_eq_trace", "renderTraceTS_eq", "renderAllTSOS_eq_trace", "renderTraceTSOS_eq"))
     HYPOTHESES_NOTE = (
         "theorems still stated with component facts as hypotheses: none needed any more - render_refines_spec, "
@@ -1174,7 +1328,13 @@ class C02(Spec):
         "overlap-save structure of OverlapSaveConvolver is inside the model (Model/OverlapSave.lean) and proved equal to "
         "the FIR (overlapSave_eq_fir, vbs_overlapSave_eq; hypotheses block_size >= 1 and a non-empty filter - the real "
         "constructors raise otherwise: os_new_zero, os_empty_filter); render_refines_spec_os / render_eq_outTS_os and "
-        "the C02 corollaries *_os are the headline theorems for the renderer model with that convolver inside. Not under "
+        "the C02 corollaries *_os are the headline theorems for the renderer model with that convolver inside. Round 8: "
+        "the *_os renderer models RAISE numpy's exceptions where the real code does (ChkErr: IndexError for a track outside "
+        "the input on every call, ValueError of np.stack for an HOA item without tracks, ValueError of np.dot whenever a "
+        "processing block with a mis-shaped decode matrix is at the head of the queue); render_refines_spec_os has only "
+        "SessionOK + a non-empty filter as hypotheses and says: the session returns RenderSpec.out OR raises one of those "
+        "three, the latter only if IndexOK fails; IndexOK (inside SessionWF) is now a used hypothesis of the corollaries; "
+        "InputOK is no longer a hypothesis anywhere. Not under "
         "the kernel: the transform pair rfft/irfft (its convolution theorem + linearity is the stated abstraction, "
         "validated numerically on every run), gain calculators (captured).")
     trusted_base = (
@@ -1194,6 +1354,11 @@ class C02(Spec):
         "1e-9); the model is tied to the real OverlapSaveConvolver / VariableBlockSizeAdapter and, inside the renderer "
         "model (renderTraceOS / renderTraceTSOS), to the real Renderer by differential runs; the older direct-form FIR "
         "model is kept (proved equal: os_fir_sim, renderAllOS_eq)",
+        "the numpy exceptions of the renderer models of Model/OverlapSave.lean (IndexError for a track outside the input, "
+        "ValueError of np.stack([]) and of np.dot with a mis-shaped decode matrix, where and when they are raised) are "
+        "hand transliterations of DirectProcessor.process / MultiTrackProcessor.process / FixedMatrix.process inside "
+        "the channel loops; tied to the real Renderer by sessions with such faults on every run (exception kind, the call "
+        "at which it is raised, the blocks returned before it)",
         "gain calculators are black boxes: their per-block results are captured and given to the model",
         "the model runs at frame type Vector Rat n (exact); the theorems are stated for any frame type with the "
         "module laws (instances: Rat, Vector Rat n, products)",
@@ -1204,8 +1369,12 @@ class C02(Spec):
         "decorrelation filter with at least one tap (an empty filter array makes the real constructor raise IndexError; "
         "design_decorrelators always returns `size` taps)",
         "block_size >= 1; sample_rate >= 1; track specs well formed (C20 Spec.wf: direct indices within the input "
-        "channels, coefficient delays round to >= 0 samples), every HOA item has at least one track spec; input "
-        "frames have n_in samples and get_tail is called with n_channels = n_in",
+        "channels, coefficient delays round to >= 0 samples), every HOA item has at least one track spec; the input "
+        "has n_in channels (the models take the width from the configuration, as an empty numpy block still has one) and "
+        "get_tail is called with n_channels = n_in",
+        "for the block-independence / length corollaries: IndexOK - tracks inside the input, >= 1 track per HOA item, "
+        "decode matrices with one column per track (outside it the model raises IndexError/ValueError like the code, "
+        "render_refines_spec_os)",
         "exact rational arithmetic on the model side; the property's 'up to rounding' is the float gap",
     )
     rule = (
@@ -1221,16 +1390,24 @@ class C02(Spec):
         "real OverlapSaveConvolver.filter_block and the VariableBlockSizeAdapter around it against Model/OverlapSave.lean "
         "(block sizes 1,2,3,5,8,512; filter lengths 0,1,B-1,B,B+1,2B,3B+1; 1-3 channels; 1-5 blocks; random partitions "
         "of streams whose length is not a multiple of B; one-row/odd-length blocks and block_size 0 must broadcast/raise "
-        "on both sides) and checks numpy's irfft(sum rfft(a,2B)*rfft(b)) against exact integer circular convolutions"
+        "on both sides) and checks numpy's irfft(sum rfft(a,2B)*rfft(b)) against exact integer circular convolutions; a "
+        "fourth family (np_error_cases, own seed-derived generator) puts index/shape faults into generated sessions - a "
+        "track >= n_in on an Objects/DirectSpeakers/HOA item, an HOA item without tracks, a decode matrix of the wrong "
+        "width in the first block, in a later block that is reached, in one that starts after input + tail (never "
+        "applied: no exception), in one whose predecessor ends within a frame of input + tail (boundary of 'reached'), "
+        "with and without track specs, and a mis-shaped later matrix followed by an item with a bad track (which "
+        "exception comes first depends on the blocking) - and requires the real Renderer and the model (runos/runtsos) "
+        "to raise the same kind of exception (IndexError / ValueError np.stack / ValueError np.dot / none) at the same "
+        "call with the same blocks returned before it, over four blockings each"
     )
 
     # budgets
     def budgets(self, ctx):
         if ctx.quick:
             return dict(small=45, parts_small=10, long=14, parts_long=3, rejected=12, conv=40, search=60,
-                        ts_small=30, ts_long=8, ts_rejected=8, fft=24, os=42, os_big=2)
+                        ts_small=30, ts_long=8, ts_rejected=8, fft=24, os=42, os_big=2, np=40, np_ts=14)
         return dict(small=220, parts_small=None, long=120, parts_long=5, rejected=80, conv=400, search=500,
-                    ts_small=150, ts_long=60, ts_rejected=40, fft=240, os=420, os_big=6)
+                    ts_small=150, ts_long=60, ts_rejected=40, fft=240, os=420, os_big=6, np=400, np_ts=120)
 
     def scenarios(self, ctx):
         bud = self.budgets(ctx)
@@ -1266,6 +1443,7 @@ class C02(Spec):
         conv_cases(ctx, driver, bud["conv"])
         fft_assumption_cases(ctx, driver, bud["fft"])
         os_cases(ctx, driver, bud["os"], bud["os_big"])
+        np_error_cases(ctx, driver, bud["np"], bud["np_ts"])
         self.correspond_render(ctx, driver, self.scenarios(ctx), mode="run")
 
     def correspond_render(self, ctx, driver, scs, mode, extra=None, c02_pred=True):
@@ -1384,18 +1562,34 @@ REGISTRY = dict(
     "ear/core/convolver.py inside ObjectRenderer (Model/OverlapSave.lean: filter partitions of block_size rows, "
     "input_block with the current block in the first and the previous block in the second half, rotating queue "
     "blocks_fd, slot 0 inverse-transformed / first half returned / zeroed / queue rotated; behind the "
-    "VariableBlockSizeAdapter), for every session in the stated quantifier (SessionWF: block_size >= 1, timelines the "
-    "interpreters accept, track indices inside the input, HOA decode matrices as wide as the item has tracks, a "
-    "decorrelation filter with >= 1 tap; InputOK: frames of n_in samples), every input and EVERY partition of it into "
-    "render() calls (empty and single-sample blocks included): no call raises, all returned blocks plus the tail "
-    "concatenate to the sample-by-sample specification RenderSpec.out of the concatenated input, hence two blockings "
-    "give identical output, of exactly the input length, frame s = output time s. Convolver theorems "
+    "VariableBlockSizeAdapter) AND numpy's exceptions where the real code raises them (ChkErr: IndexError "
+    "`input_samples[:, track]` for a track outside the input - evaluated for every channel on every call -, ValueError of "
+    "np.stack for an HOA item without tracks, ValueError of np.dot whenever a FixedMatrix block whose decode matrix does "
+    "not have one column per track is at the head of the queue, overlap or not): render_refines_spec_os needs only "
+    "SessionOK (block_size >= 1, timelines the interpreters accept) and a decorrelation filter with >= 1 tap, and says "
+    "for every input and EVERY partition of it into render() calls (empty and single-sample blocks included): the "
+    "session EITHER returns all blocks plus the tail concatenating to the sample-by-sample specification RenderSpec.out "
+    "of the concatenated input OR raises one of those three exceptions, the latter only if the static conditions IndexOK "
+    "(tracks < n_in, >= 1 track per HOA item, matrices as wide as the item has tracks) fail; render_refines_spec_os_ok: "
+    "inside IndexOK no call raises; renderAllOS_ok_tracks / renderAllOS_raises_of_bad_track: a track outside the input "
+    "(or an HOA item without tracks) makes EVERY session raise, for every blocking; renderAllOS_ok_first_matrix: so does "
+    "a mis-shaped FIRST decode matrix of an HOA item (np.dot is evaluated on the head of the queue on the first call, "
+    "overlap or not); hence (SessionWF = SessionOK + "
+    "IndexOK + taps) two blockings give identical output (C02_block_independent_os), of exactly the input length, frame "
+    "s = output time s (C02_length_and_origin_os); C02_block_independent_os_of_ok: without IndexOK, two blockings that "
+    "both return audio return the same audio (which numpy exception is raised first CAN depend on the blocking - "
+    "kernel-evaluated witness in Props/C03.lean - so equality of exceptions is not claimed). With track processors "
+    "(render_eq_outTS_os etc.) IndexError / np.stack are exceptions of the C20 processor model and np.dot is added the "
+    "same way. Convolver theorems "
     "(Proofs/C02OverlapSave.lean): os_step_spec (explicit state invariant OSInv: slot i holds the contributions due i "
     "blocks from now), overlapSave_eq_fir (any B >= 1, any non-empty filter - shorter than B, not a multiple of B, many "
     "partitions - any number of blocks: concatenated filter_block outputs = the linear convolution), os_fir_sim, "
     "vbs_overlapSave_run_eq / vbs_overlapSave_eq (adapter around the convolver over ANY partition = the FIR delayed by "
-    "block_size, call by call), renderAllOS_eq / renderAllTSOS_eq (whole sessions with the overlap-save convolver = "
-    "sessions with the direct-form FIR, same exception or same audio, no hypotheses on items); os_new_zero / "
+    "block_size, call by call), renderAllOS_rel / renderAllTSOS_rel (whole sessions with the overlap-save convolver and "
+    "the numpy exceptions vs sessions with the direct-form FIR and totalised indexing, no hypotheses on items: same "
+    "audio, or same exception, or a numpy exception and then IndexOK fails; generic lemmas bpcLoopC_rel / "
+    "bpcProcessC_rel / procChansC_rel / hoaChansTSC_rel in Proofs/C02Checked.lean), renderAllOS_eq / renderAllTSOS_eq "
+    "(equality under IndexOK); os_new_zero / "
     "os_empty_filter state what the code does outside (block_size 0: ValueError, empty filter: IndexError). The only "
     "abstraction left in the convolver is the transform pair: spectra are represented by their inverse transforms and "
     "`block += filter_block * in_block_fd` by adding circConv(2*block_size) - the convolution theorem for numpy's "
@@ -1411,7 +1605,10 @@ REGISTRY = dict(
     "exception). Tie on every run: real ear.core.renderer.Renderer (block_size 1-8, decorrelator size 2-16 via public "
     "options, captured gains, generated accepted timelines, items with mix/gain/matrix-coefficient(delay)/silent/nested "
     "track specs, rejected timelines/specs that must raise on both sides; all compositions of streams <= 8 frames in "
-    "thorough) against BOTH renderer models (FIR and overlap-save: driver ops run/runts and runos/runtsos); real "
+    "thorough) against BOTH renderer models (FIR and overlap-save: driver ops run/runts and runos/runtsos); sessions "
+    "with index/shape faults (bad track, HOA item without tracks, mis-shaped decode matrix first / later / never reached / "
+    "at the boundary of being reached, with and without track specs, two faults whose order depends on the blocking) on "
+    "the real Renderer vs runos/runtsos: same exception kind at the same call; real "
     "OverlapSaveConvolver.filter_block and VariableBlockSizeAdapter around it against Model/OverlapSave.lean (block "
     "sizes 1,2,3,5,8,512; filter lengths 0,1,B-1,B,B+1,2B,3B+1; 1-3 channels; several blocks; random partitions incl. "
     "empty blocks; one-row blocks broadcast, other lengths and block_size 0 raise on both sides). Direct predicates on "
@@ -1421,9 +1618,12 @@ REGISTRY = dict(
     note="Trusted: Lean kernel; hand transliteration + correspondence harness; numpy's rfft/irfft satisfy the "
     "convolution theorem and irfft is linear (stated abstraction of Model/OverlapSave.lean, checked numerically each "
     "run, not proved); gain calculators are black boxes (captured). Quantifier: timelines accepted by the interpreters "
-    "with non-negative durations / interpolation lengths and start >= 0; track indices < n_in and HOA matrices of the "
-    "right width (the models index with defaults where numpy raises IndexError/ValueError - IndexOK/InputOK mark this "
-    "in the *_os theorems; the FIR-model theorems are about the totalised model); track specs satisfying Spec.wf "
+    "with non-negative durations / interpolation lengths and start >= 0; for the equalities, track indices < n_in, >= 1 "
+    "track per HOA item and HOA matrices of the right width (IndexOK - outside it the *_os models raise like the code; "
+    "not proved: the exact dynamic condition under which a mis-shaped LATER matrix is reached, i.e. 'the previous block "
+    "ends before input + tail' - that is tied by correspondence only; the FIR-model theorems are about the totalised "
+    "model); the width of the input is c.n_in (a model block stands for an (n, n_in) numpy array when its frames have "
+    "n_in samples; no theorem needs that as a hypothesis any more); track specs satisfying Spec.wf "
     "(delays generated away from rounding ties - the tie rule itself is C20), HOA items with >= 1 spec; one sample "
     "rate per session; filter with >= 1 tap (Cfg.decorrelator_delay for an empty filter is Nat 0 where Python has -1: "
     "unreachable, the real constructor raises first). Exact rationals on the model side; the property's 'up to "
